@@ -469,3 +469,35 @@ def fold_str(e, *scopes) -> Optional[str]:
             return "".join(out)
         return None
     return go(e)
+
+
+# ---- facts as clauses (De Morgan / comparison complements normalised) -----------------------------------------------
+
+_COMPLEMENT = {ast.LtE: ast.Gt, ast.Lt: ast.GtE, ast.NotEq: ast.Eq, ast.IsNot: ast.Is, ast.NotIn: ast.In}
+
+
+def literal(e, pol: bool = True):
+    """(text, polarity) of a literal in normal form: `not x` -> (x, False); `a <= b` -> (a > b, False); `a != b` -> (a == b, False)"""
+    while isinstance(e, ast.UnaryOp) and isinstance(e.op, ast.Not):
+        e, pol = e.operand, not pol
+    if isinstance(e, ast.Compare) and len(e.ops) == 1 and type(e.ops[0]) in _COMPLEMENT:
+        e = ast.Compare(left=e.left, ops=[_COMPLEMENT[type(e.ops[0])]()], comparators=e.comparators)
+        pol = not pol
+    return unparse(e), pol
+
+
+def clauses_at(fa: FuncAnalysis, n: Node):
+    """the must-facts at n as clauses (sets of literals of which at least one holds): `a and b` false and `not a or not b`
+    true are the same clause {(a, False), (b, False)}; a plain atom is a unit clause"""
+    out = []
+    for a, p in fa.facts.atoms_at(n):
+        neg = False
+        while isinstance(a, ast.UnaryOp) and isinstance(a.op, ast.Not):
+            a, p = a.operand, not p
+        if isinstance(a, ast.BoolOp) and isinstance(a.op, ast.And) and not p:
+            out.append(frozenset(literal(v, False) for v in a.values))
+        elif isinstance(a, ast.BoolOp) and isinstance(a.op, ast.Or) and p:
+            out.append(frozenset(literal(v, True) for v in a.values))
+        else:
+            out.append(frozenset([literal(a, bool(p))]))
+    return out
